@@ -19,6 +19,7 @@ import (
 	"math/rand"
 	"os"
 	"reflect"
+	"runtime"
 	"sort"
 	"strings"
 	"time"
@@ -34,6 +35,58 @@ import (
 )
 
 const maxCopies = 6
+
+// hangTimeout bounds one operation or one snapshot: code that shares an arena between copies can loop forever.
+const hangTimeout = 10 * time.Second
+
+// memExceeded is closed when the heap grows beyond memLimit (an endless loop that keeps appending).
+const memLimit = 1 << 30
+
+var memExceeded = make(chan struct{})
+
+func init() {
+	go func() {
+		var ms runtime.MemStats
+		for {
+			time.Sleep(30 * time.Millisecond)
+			runtime.ReadMemStats(&ms)
+			if ms.HeapAlloc > memLimit {
+				close(memExceeded)
+				return
+			}
+		}
+	}()
+}
+
+// guarded runs f in a goroutine; false = it did not return in time (the goroutine is abandoned and the
+// harness stops after writing the current case).
+func guarded(f func()) bool {
+	done := make(chan struct{})
+	go func() {
+		defer close(done)
+		f()
+	}()
+	t := time.NewTimer(hangTimeout)
+	defer t.Stop()
+	select {
+	case <-done:
+		return true
+	case <-t.C:
+		return false
+	case <-memExceeded:
+		return false
+	}
+}
+
+// hung is set when an operation or a snapshot did not terminate; the current case is written and the run ends.
+var hung bool
+
+func stopIfHung(c *Config) {
+	if hung {
+		c.Close()
+		os.Exit(0)
+	}
+}
 
 func boolInt(b bool) int {
 	if b {
@@ -261,7 +314,9 @@ func newBdRunner(people bool) *bdRunner {
 	return &bdRunner{copies: []*leaves.BurndownAnalysis{newAnalysis(people)}, last: []string{""}}
 }
 
-func (r *bdRunner) observe(result string) {
+// observe snapshots every copy; target = the copy the operation ran on (-1: none); a copy that existed
+// before and is not the target must not change: if it does the case stops here (its trees may be corrupt).
+func (r *bdRunner) observe(result string, target int, existing int) {
 	var cs []Sx
 	for i, a := range r.copies {
 		s := bdCopySx(a)
@@ -270,6 +325,9 @@ func (r *bdRunner) observe(result string) {
 			cs = append(cs, A("="))
 		} else {
 			cs = append(cs, s)
+			if i != target && i < existing {
+				r.failed = true
+			}
 			r.last[i] = str
 		}
 	}
@@ -283,24 +341,34 @@ func (r *bdRunner) observe(result string) {
 }
 
 func (r *bdRunner) exec(o bdOp) {
-	if r.failed {
+	if r.failed || hung {
 		return
 	}
-	if o.copy < 0 || o.copy >= len(r.copies) {
-		r.observe("skip")
+	result, target, existing := "", -1, len(r.copies)
+	if !guarded(func() { result, target = r.apply(o) }) {
+		hung = true
+		r.obs = append(r.obs, T("o", T("r", A("hang"))))
 		return
+	}
+	if !guarded(func() { r.observe(result, target, existing) }) {
+		hung = true
+		r.obs = append(r.obs, T("o", T("r", A(result)), T("hang")))
+	}
+}
+
+func (r *bdRunner) apply(o bdOp) (string, int) {
+	if o.copy < 0 || o.copy >= len(r.copies) {
+		return "skip", -1
 	}
 	if o.kind == "fork" {
 		if o.n < 0 || len(r.copies)+o.n > 3*maxCopies {
-			r.observe("skip")
-			return
+			return "skip", -1
 		}
 		for _, it := range r.copies[o.copy].Fork(o.n) {
 			r.copies = append(r.copies, it.(*leaves.BurndownAnalysis))
 			r.last = append(r.last, "")
 		}
-		r.observe("fork")
-		return
+		return "fork", -1
 	}
 	var err error
 	msg, panicked := Catch(func() { _, err = r.copies[o.copy].Consume(o.deps()) })
@@ -310,13 +378,12 @@ func (r *bdRunner) exec(o bdOp) {
 	switch {
 	case panicked:
 		r.failed = true
-		r.observe("panic")
+		return "panic", o.copy
 	case err != nil:
 		r.failed = true
-		r.observe("err")
-	default:
-		r.observe("ok")
+		return "err", o.copy
 	}
+	return "ok", o.copy
 }
 
 // lens returns the tracked lengths of one copy.
@@ -535,6 +602,7 @@ func emitBd(c *Config, kind string, people bool, ops []bdOp, r *bdRunner) {
 		}
 	}
 	c.Emit(T("kind", A(kind)), T("nt", B(forks > 0 && after > 0)), T("people", B(people)), T("ops", os_...), T("obs", r.obs...))
+	stopIfHung(c)
 }
 
 func randomBd(c *Config) {
@@ -702,8 +770,9 @@ type rbSide struct {
 }
 
 type rbRunner struct {
-	sides []*rbSide
-	obs   []Sx
+	sides  []*rbSide
+	obs    []Sx
+	failed bool
 }
 
 func newRbRunner() *rbRunner {
@@ -734,15 +803,18 @@ func rbSideSx(s *rbSide) (res Sx) {
 	return T("s", xs...)
 }
 
-func (r *rbRunner) observe(result string) {
+func (r *rbRunner) observe(result string, target int, existing int) {
 	var ss, arena []Sx
-	for _, s := range r.sides {
+	for i, s := range r.sides {
 		sx := rbSideSx(s)
 		str := sx.String()
 		if str == s.last {
 			ss = append(ss, A("="))
 		} else {
 			ss = append(ss, sx)
+			if i != target && i < existing {
+				r.failed = true
+			}
 			s.last = str
 		}
 		var snap interface{} = s.al.VerifSnapshot()
@@ -753,30 +825,42 @@ func (r *rbRunner) observe(result string) {
 }
 
 func (r *rbRunner) exec(o rbOp) {
-	if o.side < 0 || o.side >= len(r.sides) {
-		r.observe("skip")
+	if r.failed || hung {
 		return
+	}
+	result, target, existing := "", -1, len(r.sides)
+	if !guarded(func() { result, target = r.apply(o) }) {
+		hung = true
+		r.obs = append(r.obs, T("o", T("r", A("hang"))))
+		return
+	}
+	if !guarded(func() { r.observe(result, target, existing) }) {
+		hung = true
+		r.obs = append(r.obs, T("o", T("r", A(result)), T("hang")))
+	}
+}
+
+func (r *rbRunner) apply(o rbOp) (string, int) {
+	if o.side < 0 || o.side >= len(r.sides) {
+		return "skip", -1
 	}
 	s := r.sides[o.side]
 	if o.kind == "fork" {
 		if o.n < 0 || len(r.sides)+o.n > 3*maxCopies {
-			r.observe("skip")
-			return
+			return "skip", -1
 		}
 		for k := 0; k < o.n; k++ {
 			al := s.al.Clone()
-			ns := &rbSide{al: al, snap: al.VerifSnapshot()}
+			ns := &rbSide{al: al, snap: al.VerifSnapshot(), last: "?"}
 			for _, t := range s.trees {
 				ns.trees = append(ns.trees, t.CloneShallow(al))
 			}
 			r.sides = append(r.sides, ns)
 		}
-		r.observe("fork")
-		return
+		return "fork", -1
 	}
 	if o.kind != "new" && (o.t < 0 || o.t >= len(s.trees)) {
-		r.observe("0")
-		return
+		return "0", o.side
 	}
 	res := true
 	_, panicked := Catch(func() {
@@ -794,10 +878,10 @@ func (r *rbRunner) exec(o rbOp) {
 		}
 	})
 	if panicked {
-		r.observe("panic")
-	} else {
-		r.observe(fmt.Sprint(boolInt(res)))
+		r.failed = true
+		return "panic", o.side
 	}
+	return fmt.Sprint(boolInt(res)), o.side
 }
 
 func emitRb(c *Config, kind string, ops []rbOp, r *rbRunner) {
@@ -812,6 +896,7 @@ func emitRb(c *Config, kind string, ops []rbOp, r *rbRunner) {
 		}
 	}
 	c.Emit(T("kind", A(kind)), T("nt", B(forks > 0 && after > 0)), T("ops", os_...), T("obs", r.obs...))
+	stopIfHung(c)
 }
 
 func runRb(c *Config, kind string, ops []rbOp) {
@@ -1160,6 +1245,16 @@ func (r *plRunner) observe(res Sx, twin Sx) {
 }
 
 func (r *plRunner) exec(o plOp) {
+	if hung {
+		return
+	}
+	if !guarded(func() { r.exec1(o) }) {
+		hung = true
+		r.obs = append(r.obs, T("o", T("r", T("hang"))))
+	}
+}
+
+func (r *plRunner) exec1(o plOp) {
 	if o.copy < 0 || o.copy >= len(r.copies) {
 		r.observe(T("skip"), T("skip"))
 		return
@@ -1210,6 +1305,7 @@ func emitPl(c *Config, kind string, size int, commits []plCommit, ops []plOp, r 
 		}
 	}
 	c.Emit(T("kind", A(kind)), T("nt", B(forks > 0 && after > 1)), T("size", I(size)), T("commits", cs...), T("ops", os_...), T("obs", r.obs...))
+	stopIfHung(c)
 }
 
 func runPl(c *Config, kind string, size int, commits []plCommit, ops []plOp) {
